@@ -230,9 +230,17 @@ func cmdCheck(args []string) int {
 		}
 		prop = fs.Arg(0)
 	}
-	if t := os.Getenv("VERIF_TIER"); t == "quick" || t == "thorough" {
+	tierSet := false
+	fs.Visit(func(f *flag.Flag) {
+		if f.Name == "tier" {
+			tierSet = true
+		}
+	})
+	if t := os.Getenv("VERIF_TIER"); (t == "quick" || t == "thorough") && !tierSet {
+		// the environment chooses the tier only when the command line does not
 		*tier = t
 	}
+	govcTier = *tier
 	seed := 0
 	if s := os.Getenv("VERIF_SEED"); s != "" {
 		if n, err := strconv.Atoi(s); err == nil {
@@ -258,6 +266,7 @@ type Verdict struct {
 	Missing             []string
 	EngineErr           bool
 	UnreachableReturns  []string
+	UnreachableBlocks   []string
 }
 
 // judge applies the ledger and the known-findings file to the raw solver results.
@@ -300,6 +309,10 @@ func judge(out *CheckOutcome, tier string, verbose bool) *Verdict {
 		if r.Kind == "cover" {
 			if r.Status == "cover-failed" && strings.Contains(r.Name, "vacuity:each-return") {
 				v.UnreachableReturns = append(v.UnreachableReturns, r.Name)
+				continue
+			}
+			if r.Status == "cover-failed" && (strings.Contains(r.Name, "vacuity:block:") || strings.Contains(r.Name, "vacuity:completes:") || strings.Contains(r.Name, "vacuity:returns:")) {
+				v.UnreachableBlocks = append(v.UnreachableBlocks, r.Name+" ("+r.Where+")")
 				continue
 			}
 			if r.Status == "cover-failed" {
@@ -396,6 +409,9 @@ func finishCheck(e *Engine, out *CheckOutcome, tier string, seed int, verbose bo
 	}
 	for _, u := range vd.UnreachableReturns {
 		fmt.Fprintln(os.Stderr, "govc: note: return path unreachable under the contract's assumptions:", u)
+	}
+	for _, u := range vd.UnreachableBlocks {
+		fmt.Fprintln(os.Stderr, "govc: note: basic block unreachable in the model (clauses checked there hold vacuously):", u)
 	}
 	for _, d := range deferred {
 		fmt.Fprintln(os.Stderr, "govc: note: slow obligation left to the thorough tier (no refutation found in the quick budget):", d)
